@@ -52,6 +52,7 @@ inductive Act
   | setShallow (q : Nat)        -- make the value's `Clone` shallow (copies no handle); see `makeMut`
   | upgradeField (k : Nat)       -- only inside a destructor: upgrade own Weak field `k`
   | cloneField (k : Nat)         -- only inside a destructor: clone own strong field `k`
+  | downgradeField (k : Nat)     -- only inside a destructor: `Rc::downgrade` of own strong field `k`
   deriving DecidableEq, Repr, Inhabited
 
 /-- the payload stored in an `Rc`: handles it owns and what its destructor does -/
